@@ -146,6 +146,7 @@ def gen_cell(cell, rng, rep):
     sec, virt = cell['sec'], cell['virt']
     cfg = {'arch_version': 7, 'have_security_ext': sec, 'have_virt_ext': virt, 'have_lpae': False,
            'memory_system_architecture': 'VMSA' if virt else rng.choice(['PMSA', 'PMSA', 'VMSA']), 'number_of_mpu_regions': 12}
+    cfg.update(G.impdef_switches(rng))
     pmsa = cfg['memory_system_architecture'] == 'PMSA'
     kind = cell['kind']
     thumb = cell['t']
